@@ -1400,6 +1400,8 @@ def run_ref(case):
             bumped = [i for i, fs in enumerate(fss) if fs.activated != before[i]]
             obs["decision"] = ["reuse", bumped[0]] if len(bumped) == 1 and fss[bumped[0]].activated == before[bumped[0]] + 1 else \
                 ("ignored" if not bumped else "other:" + json.dumps(bumped))
+        # `state.flow_id_states[f]` after the step: activation counter and `arguments` (ordered) of every instance
+        obs["after"] = [[int(fs.activated), _items(fs.arguments, source_uid)] for fs in st.flow_id_states.get("f", [])]
     except Exception as e:  # noqa
         obs["decision"] = "err:" + _exc_name(e)
     return obs
@@ -1497,6 +1499,12 @@ def compare(case, obs, mouts):
             md = ["create", case["query"]["src_inst"]]   # not re-parented: the source stays the requesting f-instance
         if obs["decision"] != md:
             return f"StartFlow decision: impl {obs['decision']} model {md}"
+        q = case["query"]
+        if q["src"] == "main" and q["activated"] is True and "after" in obs and isinstance(m.get("after"), list):
+            # the whole step (`activateStepEv`): counters and the arguments every instance was started with
+            norm = lambda l: [[a, [kv for kv in _strip_uids([[k, canon_j(v)] for k, v in items]) if kv[0] != "source_flow_instance_uid"]] for a, items in l]  # noqa
+            if norm(obs["after"]) != norm(m["after"]):
+                return f"instances after the StartFlow step: impl {norm(obs['after'])} model {norm(m['after'])}"
         return None
     # e2e: every model output (value interpreter `exec`, heap interpreter `hexec`) against the real run
     for which, m in zip(("exec", "hexec") if len(mouts) == 2 else ("hexec",), mouts):
